@@ -316,8 +316,17 @@ fn main() {
     }
 
     let cfg = Cfg { scale: cli.scale(), thorough: cli.tier == Tier::Thorough };
+    let t0 = std::time::Instant::now();
     samples(&mut report);
+    let t1 = std::time::Instant::now();
     packet_workload(&mut report, &cli, &cfg);
+    let t2 = std::time::Instant::now();
     varnum_workload(&mut report, &cli, &cfg);
+    let t3 = std::time::Instant::now();
+    report.set(
+        "phase_wall_s",
+        json!({"written-out samples": (t1 - t0).as_secs_f64(), "packets and enums": (t2 - t1).as_secs_f64(), "VarInt and VarLong": (t3 - t2).as_secs_f64()}),
+    );
+    eprintln!("[C09] phases: samples {:.1}s, packets+enums {:.1}s, varint+varlong {:.1}s", (t1 - t0).as_secs_f64(), (t2 - t1).as_secs_f64(), (t3 - t2).as_secs_f64());
     std::process::exit(report.finish());
 }
